@@ -23,7 +23,7 @@ use super::code::*;
 pub mod code {
 use super::*;
 use super::spec::*;
-broadcast use {ax_r_of, ax_r_ext, ax_sqrt, lemma_sqrt_pos, lemma_sq_nonneg, lemma_rmul_nonneg, lemma_rdiv_nonneg, ax_nq_sign, ax_tq_sign, ax_floor, lemma_floor_int, lemma_wilson_bounds_any_z};
+broadcast use {ax_r_of, ax_r_ext, ax_sqrt, lemma_sqrt_pos, lemma_sq_nonneg, lemma_rmul_nonneg, lemma_rdiv_nonneg, ax_nq_sign, ax_nq_erf_inv, ax_tq_sign, ax_floor, lemma_floor_int, lemma_wilson_bounds_any_z};
 //@include prelude/base_code.rs
 //@include prelude/wilson_code.rs
 //@include prelude/quantile_code.rs
